@@ -24,17 +24,18 @@ Legal == {<<"CREATED", t>> : t \in {"RUNNING", "KILLED", "EXCEPTED"}}
          \cup {<<f, t>> : f \in {"RUNNING", "WAITING"}, t \in {"RUNNING", "WAITING", "FINISHED", "KILLED", "EXCEPTED"}}
 
 \* td: depth of nested transition_to calls; nf: a transition failed and was re-routed since the current top-level call began
-Start(i) == [st |-> Traces[i].init, depth |-> 0, td |-> 0, nf |-> FALSE, inBr |-> FALSE, calls |-> <<>>, termHere |-> FALSE]
+\* played: the last completed top-level call was a play() that returned normally (C05: the process is then un-paused)
+Start(i) == [st |-> Traces[i].init, depth |-> 0, td |-> 0, nf |-> FALSE, inBr |-> FALSE, calls |-> <<>>, termHere |-> FALSE, played |-> FALSE]
 Events(i) == Traces[i].events
 Ev == Events(tid)[l]
 Has == tid <= NT /\ l <= Len(Events(tid))
 Consume == l' = l + 1 /\ UNCHANGED tid
 
-TInit == tid = 1 /\ l = 1 /\ o = (IF NT >= 1 THEN Start(1) ELSE [st |-> "-", depth |-> 0, td |-> 0, nf |-> FALSE, inBr |-> FALSE, calls |-> <<>>, termHere |-> FALSE])
+TInit == tid = 1 /\ l = 1 /\ o = (IF NT >= 1 THEN Start(1) ELSE [st |-> "-", depth |-> 0, td |-> 0, nf |-> FALSE, inBr |-> FALSE, calls |-> <<>>, termHere |-> FALSE, played |-> FALSE])
 
 \* a top-level transition_to call (or a nested one: the failed-transition route) starts / ends
 TS == Has /\ Ev[1] = "ts" /\ Consume
-      /\ o' = [o EXCEPT !.depth = @ + 1, !.td = @ + 1, !.inBr = IF o.depth = 0 THEN FALSE ELSE @,
+      /\ o' = [o EXCEPT !.depth = @ + 1, !.td = @ + 1, !.inBr = IF o.depth = 0 THEN FALSE ELSE @, !.played = FALSE,
                         !.nf = IF o.depth = 0 THEN FALSE ELSE (@ \/ o.td > 0)]
 TE == Has /\ Ev[1] = "te" /\ o.depth > 0 /\ o.td > 0 /\ Consume /\ o' = [o EXCEPT !.depth = @ - 1, !.td = @ - 1]
 
@@ -50,7 +51,7 @@ Enter == Has /\ Ev[1] = "enter" /\ Consume
 
 \* a control call starts: remember the state it found
 CS == Has /\ Ev[1] = "cs" /\ Consume
-      /\ o' = [o EXCEPT !.calls = Append(@, [name |-> Ev[2], before |-> o.st, stable |-> o.td = 0]), !.depth = @ + 1,
+      /\ o' = [o EXCEPT !.calls = Append(@, [name |-> Ev[2], before |-> o.st, stable |-> o.td = 0]), !.depth = @ + 1, !.played = FALSE,
                         !.inBr = IF o.depth = 0 THEN FALSE ELSE @, !.nf = IF o.depth = 0 THEN FALSE ELSE @]
 \* ... and ends: ["ce", name, ret, exc]
 CE == Has /\ Ev[1] = "ce" /\ o.calls # <<>> /\ o.depth > 0 /\ Consume
@@ -64,7 +65,12 @@ CE == Has /\ Ev[1] = "ce" /\ o.calls # <<>> /\ o.depth > 0 /\ Consume
            /\ ((Ev[2] = "kill" /\ c.stable /\ c.before \in Terminal) => Ev[3] = (IF c.before = "KILLED" THEN "True" ELSE "False"))
            /\ ((Ev[2] = "pause" /\ c.stable /\ c.before \in Terminal) => Ev[3] = "False")
            /\ ((Ev[2] = "resume" /\ c.stable /\ c.before # "WAITING") => Ev[4] = "EventError")
-      /\ o' = [o EXCEPT !.calls = SubSeq(@, 1, Len(@) - 1), !.depth = @ - 1]
+           \* C05: pause()/play() never raise by themselves (a user's pause/play hook that raises is reported to the caller: C03),
+           \*      play() answers True and a pause on a live process answers True or hands back the pending action
+           /\ ((Ev[2] = "play" /\ Ev[4] = "-") => Ev[3] = "True")
+           /\ ((Ev[2] = "pause" /\ c.stable /\ c.before \in Live /\ Ev[4] = "-") => Ev[3] \in {"True", "fut", "False"})
+      /\ o' = [o EXCEPT !.calls = SubSeq(@, 1, Len(@) - 1), !.depth = @ - 1,
+                        !.played = (Ev[2] = "play" /\ Ev[4] = "-" /\ Len(o.calls) = 1 /\ o.depth = 1)]
 
 \* the public projection at a stable point: ["obs", state, paused, future, closed, consistent]
 Obs == Has /\ Ev[1] = "obs" /\ o.depth = 0 /\ Consume
@@ -76,6 +82,7 @@ Obs == Has /\ Ev[1] = "obs" /\ o.depth = 0 /\ Consume
        /\ (Ev[2] = "KILLED"   => Ev[4] = "killed")
        /\ (Ev[5] = "T" => Ev[2] \in Terminal)                                              \* closed only when terminated
        /\ (o.termHere => Ev[5] \in {"T", "?"})                                            \* terminated in this life => closed
+       /\ (o.played => Ev[3] = FALSE)                                                    \* C05: play() leaves the process un-paused
        /\ UNCHANGED o
 
 \* leave the current trace (accepted iff fully consumed) and start the next one: every trace gets a verdict
